@@ -66,8 +66,9 @@ func (rp *RuleParser) ParseVariables(vars string) error {
 				// we don't want to miss the last character
 				if curr == 0 {
 					curVar = append(curVar, c)
-				} else if curr != 2 && c != '/' {
+				} else if curr != 2 && c != '/' && !(isquoted && c == '\'') {
 					// we don't want the last slash if it's a regex
+					// nor the closing quote of a quoted key
 					curKey = append(curKey, c)
 				}
 			}
@@ -142,8 +143,15 @@ func (rp *RuleParser) ParseVariables(vars string) error {
 			case c == '/':
 				// We are starting a regex
 				curr = 2
+			case c == '\'' && isquoted:
+				// closing quote of a quoted key that is not a regex: the
+				// variable has to end here
+				if vars[i+1] != '|' {
+					return fmt.Errorf("unexpected character after quoted key: %q", vars)
+				}
+				isquoted = false
 			case c == '\'':
-				// we start a quoted regex
+				// we start a quoted key (usually a regex)
 				// we go back to the loop to find /
 				isquoted = true
 			default:
